@@ -590,6 +590,10 @@ func scenarios() []scenario {
 		{name: "empty: ReadPeek(4) vs Close", threads: [][]op{{pk(4)}, {cl}}},
 		{name: "empty: Read(4) vs Close", threads: [][]op{{rd(4)}, {cl}}},
 		{name: "full: Write(4) vs Close Close", pre: []op{w(16)}, threads: [][]op{{w(4)}, {cl, cl}}},
+		{name: "full: Write(4) vs Close", pre: []op{w(16)}, threads: [][]op{{w(4)}, {cl}}},
+		{name: "full: WriteWait(5) vs Close", pre: []op{w(16)}, threads: [][]op{{ww(5)}, {cl}}},
+		{name: "wrapped full: WriteCommit(3) vs Close", pre: []op{w(12), rd(10), w(14)}, threads: [][]op{{wc(3)}, {cl}}},
+		{name: "empty: ReadWait(4) then ReadCommit vs Close", threads: [][]op{{rw(4), rc(1)}, {cl}}},
 		{name: "full: WriteWait(4) vs Close, then ReadCommit", pre: []op{w(16)}, threads: [][]op{{ww(4)}, {cl}, {rc(2)}}},
 		{name: "empty: ReadWait(4) vs Write(4) vs Close", threads: [][]op{{rw(4), rc(4)}, {w(4)}, {cl}}},
 		{name: "full: Write(3) vs Read(3) vs Close", pre: []op{w(16)}, threads: [][]op{{w(3)}, {rd(3)}, {cl}}},
